@@ -569,6 +569,184 @@ def run_pq(c, binary):
                                                     "pq_never_panics_never_out_of_fuel", "pq_len_le_capacity"]},
                      found_input=False)
     crosscheck(c, hists, model, sorted(i for i in cross_idx if i in model))
+    run_pq_large(c, binary)
+
+
+# --------------------------------------------------------------------------- large bounded capacities
+
+class BagOracle:
+    """Python transcription of HeapModel.abs_stepb (the executable acceptance test of the abstract sorted
+    multiset, proved sound and complete for abs_run, which pq_refines_sorted_multiset makes the
+    specification) with O(log n) steps, for histories too long for the list-based extracted version.
+    It is validated on every run against the extracted abs_first_reject (see validate_bag_oracle)."""
+
+    def __init__(self, cm, cap):
+        import collections
+        self.key = {"asc": lambda v: v, "desc": lambda v: -v, "mod3": lambda v: v % 3}[cm]
+        self.cap = cap
+        self.values = collections.Counter()
+        self.keys = collections.Counter()
+        self.heap = []
+        self.n = 0
+
+    def _minkey(self):
+        import heapq
+        while self.keys[self.heap[0]] == 0:
+            heapq.heappop(self.heap)
+        return self.heap[0]
+
+    def step(self, op, ans):
+        """True when the specification allows `ans` for `op` in the current bag (and moves on)."""
+        import heapq
+        k = op[0]
+        if k == "e":
+            full = self.cap > 0 and self.n == self.cap
+            if full:
+                return ans == "err:full"
+            if ans != "ok":
+                return False
+            v = int(op[1:].rstrip("~"))
+            self.values[v] += 1
+            self.keys[self.key(v)] += 1
+            heapq.heappush(self.heap, self.key(v))
+            self.n += 1
+            return True
+        if k in "dp":
+            if self.n == 0:
+                return ans == "err:empty"
+            m = re.match(r"ok:(-?[0-9]+)\Z", ans)
+            if not m:
+                return False
+            x = int(m.group(1))
+            if self.values[x] <= 0 or self.key(x) != self._minkey():
+                return False
+            if k == "d":
+                self.values[x] -= 1
+                self.keys[self.key(x)] -= 1
+                self.n -= 1
+            return True
+        if k == "l":
+            return ans == "len:%d" % self.n
+        return False
+
+
+def first_reject_py(cm, cap, ops, answers):
+    o = BagOracle(cm, cap)
+    for i, (op, a) in enumerate(zip(ops, answers)):
+        if not o.step(op, a):
+            return i
+    return None
+
+
+def validate_bag_oracle(c):
+    """The Python oracle and the extracted abs_first_reject must give the same verdict (accept / index of the
+    first rejected answer) on the model's own answers for small histories and on perturbations of them."""
+    r = random.Random(c.seed + 23)
+    hs = []
+    for i in range(90):
+        kind, val = value_source(r)
+        cap = r.choice([0, -1, 1, 2, 3, 5, 8])
+        ops = [o for o in mixed_ops(r, r.randint(4, 60), val, bias=[0.9, 0.6, 0.4, 0.2])]
+        hs.append((CMPS[i % 3], cap, ops))
+    out = c.run_model("heap", "\n".join("int %s %d %s" % (cm, cap, " ".join(mark(o) for o in ops)) for cm, cap, ops in hs) + "\n")
+    traces = []
+    for (cm, cap, ops), line in zip(hs, out):
+        ans = [e[0] for e in parse_line(line)]
+        traces.append((cm, cap, ops, ans))
+        for _ in range(3):                                # perturb one answer
+            j = r.randrange(len(ans))
+            a = ans[j]
+            alt = r.choice(["ok", "err:full", "err:empty", "ok:%d" % r.randint(-3, 9), "len:%d" % r.randint(0, 9),
+                            re.sub(r"-?[0-9]+", lambda m: str(int(m.group(0)) + r.choice([-1, 1, 3])), a)])
+            traces.append((cm, cap, ops, ans[:j] + [alt] + ans[j + 1:]))
+    spec = c.run_model("heap-spec", "\n".join(
+        "%s %d %s" % (cm, cap, " ".join("%s=%s" % (o, a) for o, a in zip(ops, ans))) for cm, cap, ops, ans in traces) + "\n")
+    agree = rejects = 0
+    for (cm, cap, ops, ans), so in zip(traces, spec):
+        k = first_reject_py(cm, cap, ops, ans)
+        mine = "accept" if k is None else "reject %d" % k
+        agree += mine == so
+        rejects += so.startswith("reject")
+    c.cov["pq_large_oracle_validation"] = {"traces": len(traces), "rejected_by_extracted_spec": rejects, "agree": agree}
+    if agree != len(traces):
+        c.report("C05:pq:large-oracle", "the Python transcription of abs_stepb disagrees with the extracted abs_first_reject",
+                 {"kind": "oracle-validation", "agree": agree, "traces": len(traces)}, found_input=False)
+    return agree == len(traces)
+
+
+def expand_large(recipe):
+    """recipe: list of (kind, count); values are ascending distinct unless stated.
+    kinds: enq (next fresh values), enq-dup (repeat an already used value), deq, peek, len"""
+    ops, nxt = [], 0
+    for kind, n in recipe:
+        if kind == "enq":
+            ops += ["e%d~" % (nxt + i) for i in range(n)]
+            nxt += n
+        elif kind == "enq-dup":
+            ops += ["e%d~" % max(0, nxt - 1 - i) for i in range(n)]
+        elif kind == "deq":
+            ops += ["d~"] * n
+        elif kind == "peek":
+            ops += ["p~"] * n
+        elif kind == "len":
+            ops += ["l~"] * n
+    return ops
+
+
+def large_recipe(cap, r):
+    """fill to full, a few over-capacity Enqueues, partial drain, refill to full (+ over), full drain (+ over)"""
+    part = r.randint(1, 3000)
+    return [("len", 1), ("enq", cap - 2), ("len", 1), ("enq", 2), ("len", 1), ("peek", 1), ("enq", 3), ("enq-dup", 2), ("len", 1),
+            ("deq", part), ("len", 1), ("enq", part), ("enq", 2), ("len", 1), ("peek", 1),
+            ("deq", cap), ("len", 1), ("deq", 2), ("peek", 1), ("enq", 1), ("deq", 1), ("len", 1)]
+
+
+def run_pq_large(c, binary):
+    """Large bounded capacities (around and above 65536).  The list-based model and the list-based extracted
+    specification are quadratic at this size, so these histories are not replayed on HeapModel: the
+    implementation's answers (nothing else is observed: every operation carries '~') are checked by
+    BagOracle, the O(log n) transcription of abs_stepb."""
+    if not validate_bag_oracle(c):
+        return
+    r = random.Random(c.seed * 31 + 7)
+    caps = [65535, 65536, 65537, 70000, 131072, 200000]      # both tiers (cheap); thorough: x 3 comparators
+    fam = []
+    for i, cap in enumerate(caps):
+        cms = ["asc"] if c.tier != "thorough" else CMPS
+        for j, cm in enumerate(cms):
+            fam.append(("pub" if (i + j) % 2 else "int", cm, cap, large_recipe(cap, r)))
+    total_ops = 0
+    for variant, cm, cap, recipe in fam:
+        ops = expand_large(recipe)
+        total_ops += len(ops)
+        line = "%s %s %d %s" % (variant, cm, cap, " ".join(ops))
+        out = run_impl_chunked(c, binary, [line], timeout=600, hang_ms=120000)
+        entries = parse_line(out[0]) if out else []
+        answers = [e[0] for e in entries]
+        k = first_reject_py(cm, cap, ops, answers)
+        if k is None and len(answers) < len(ops):
+            k = len(answers)
+        c.note_case("large %s %s %d %r" % (variant, cm, cap, recipe), True)
+        if k is None:
+            c.cov["traces_validated_against_impl"] += 1
+            continue
+        got = answers[k] if k < len(answers) else "<no answer>"
+        o = BagOracle(cm, cap)
+        for op, a in zip(ops[:k], answers[:k]):
+            o.step(op, a)
+        opn = OPNAME.get(ops[k][0], "?")
+        c.report("C05:pq:%s:%s" % (opn, "hang" if got.startswith("hang") else "answer"),
+                 "PriorityQueue (%s comparator, capacity %d): operation #%d %s answers %r while the queue holds %d elements; "
+                 "the sorted multiset does not allow it" % (cm, cap, k, ops[k].rstrip("~"), got, o.n),
+                 {"kind": "input", "container": "PriorityQueue", "variant": variant, "comparator": cm, "capacity": cap,
+                  "history_recipe": recipe, "history_length": len(ops), "failing_op_index": k, "failing_op": ops[k],
+                  "implementation_answer": got, "elements_held": o.n,
+                  "decided_by": "BagOracle = Python transcription of HeapModel.abs_stepb (validated against the extracted abs_first_reject on this run)",
+                  "how": "python3 -c \"import sys;sys.path.insert(0,'/verif/checks');import c05;print('%s %s %d',' '.join(c05.expand_large(%r)[:%d]))\" | harness/bin/h c05pq | tr ';' '\\n' | tail -1"
+                         % (variant, cm, cap, recipe, k + 1)})
+    c.cov["pq_large_capacity"] = {"capacities": caps, "histories": len(fam), "ops": total_ops,
+                                  "oracle": "BagOracle (Python transcription of abs_stepb, validated against extracted abs_first_reject)",
+                                  "observed": "every operation's answer incl. Len at the phase boundaries; no array dump"}
 
 
 # --------------------------------------------------------------------------- main
@@ -616,6 +794,10 @@ def finish(c, with_skip):
              "sparse-* profiles: the same, but Len() and the array dump are taken only after about a third of the operations, with unobserved "
              "runs of 2..5 operations (Dequeue-then-Enqueue at constant length, Peek bursts between mutations, drains across the Shrink "
              "threshold) while every operation's own answer is still compared and the model skips the same observations; "
+             "large bounded capacities (65535, 65536, 65537, 70000, 131072, 200000; thorough: x 3 comparators): fill to full, "
+             "over-capacity Enqueues, partial drain, refill, full drain, on ascending distinct values (+ duplicates); only the answers are observed and "
+             "the oracle is NOT the extracted model (quadratic at that size) but BagOracle, an O(log n) Python transcription of HeapModel.abs_stepb, "
+             "validated on every run against the extracted abs_first_reject on ~360 small traces incl. perturbed answers; "
              "non-trivial = at least 3 operations and at least one Dequeue/Peek that returned a value; distinct by md5 of the history text. "
              "Skip list: see checks/c05_skip.py",
         assumptions=["slice.Shrink and append preserve the contents of the slice (capacity is not observable through PriorityQueue; modelled as identity, "
